@@ -9,6 +9,7 @@ import (
 	"github.com/glebziz/fs_db"
 	"github.com/glebziz/fs_db/internal/model"
 	"github.com/glebziz/fs_db/internal/utils/wpool"
+	"github.com/glebziz/fs_db/internal/verifhook"
 )
 
 const (
@@ -55,6 +56,7 @@ func (u *UseCase) DeleteFiles(ctx context.Context, files []model.File) error {
 }
 
 func (u *UseCase) deleteFile(ctx context.Context, file model.File) error {
+	verifhook.At("clean.file")
 	cf, err := u.cfRepo.Get(ctx, file.ContentId)
 	if errors.Is(err, fs_db.ErrNotFound) {
 		return nil
@@ -62,6 +64,7 @@ func (u *UseCase) deleteFile(ctx context.Context, file model.File) error {
 		return fmt.Errorf("content file repo get: %w", err)
 	}
 
+	verifhook.At("clean.beforeRemove")
 	err = u.cRepo.Delete(ctx, cf.Path())
 	if err != nil && !errors.Is(err, fs_db.ErrNotFound) {
 		return fmt.Errorf("content repo delete: %w", err)
@@ -72,11 +75,13 @@ func (u *UseCase) deleteFile(ctx context.Context, file model.File) error {
 		return fmt.Errorf("dir repo add: %w", err)
 	}
 
+	verifhook.At("clean.beforeCfDelete")
 	err = u.cfRepo.Delete(ctx, file.ContentId)
 	if err != nil {
 		return fmt.Errorf("content file repo delete: %w", err)
 	}
 
+	verifhook.At("clean.beforeFDelete")
 	err = u.fRepo.Delete(ctx, file)
 	if err != nil {
 		return fmt.Errorf("file repo delete: %w", err)
